@@ -1,11 +1,40 @@
-//! Kani harnesses for wirm (included by the cfg hook in src/lib.rs).
-#[kani::proof]
-fn k0_smoke() {
-    let x: u8 = kani::any();
-    assert!(x as u32 <= 255);
+//! Kani harnesses for wirm (included by the cfg hook in src/lib.rs: `#[cfg(all(kani, wirm_verif))]`).
+//! Every harness is loop-free over a fully symbolic finite domain: a successful run is a complete proof
+//! for that domain, a failed one comes with a concrete counterexample (concrete playback).
+#![allow(unused_imports, dead_code)]
+use crate as W;
+#[path = "/verif/kani/bodies.rs"]
+mod bodies;
+use bodies::Src;
+
+struct KaniSrc;
+impl Src for KaniSrc {
+    fn u8(&mut self) -> u8 { kani::any() }
+    fn u32(&mut self) -> u32 { kani::any() }
+    fn u64(&mut self) -> u64 { kani::any() }
+    fn bool(&mut self) -> bool { kani::any() }
+    fn bytes16(&mut self) -> [u8; 16] { kani::any() }
 }
-#[kani::proof]
-fn k0_canary_must_fail() {
-    let x: u8 = kani::any();
-    assert!(x < 255);
+macro_rules! harness {
+    ($name:ident) => {
+        #[kani::proof]
+        fn $name() {
+            let mut s = KaniSrc;
+            if let Some((ok, _)) = bodies::$name(&mut s) {
+                assert!(ok);
+            }
+        }
+    };
 }
+// vacuity guards
+#[kani::proof]
+fn k0_smoke() { let x: u8 = kani::any(); assert!(x as u32 <= 255); }
+#[kani::proof]
+fn k0_canary_must_fail() { let x: u8 = kani::any(); assert!(x < 255); }
+
+harness!(k1_valtype_roundtrip);
+harness!(k1_valtype_roundtrip_exn_cont);
+harness!(k1_valtype_encoder_matches_upstream);
+harness!(k4_ieee32_from_float_bits);
+harness!(k4_ieee64_from_float_bits);
+harness!(k4_v128_bytes_preserved);
